@@ -65,6 +65,15 @@ CHECKS = {'C01': {'design_ref': 'DESIGN.md 3/C01',
                  'itself), copy and wrong-sized targets up to depth 3 (quick) / 4 (thorough) is compared exactly with a freshly constructed alignment with the '
                  'same options (map, matrix/coefficients, target, aligned source, error, pseudoinverse); sources and caller point sets must be untouched; '
                  'wrong sizes must raise ValueError and change nothing; GPA per-shape transforms must equal the similarity alignments to the reported target.'},
+ 'C09': {'design_ref': 'DESIGN.md 3/C09',
+         'note': 'open finding D26 (batched chain with a PWA member) matched by footprint; thorough depth 4 only for letters that hold state',
+         'technique': 'explicit-state BFS over operation histories on the implementation, each transition checked against a reference model',
+         'text': '27 transform letters (CachedPWA, PythonPWA, Delaunay PWA, TPS with both kernels, the RBFs alone, every homogeneous representative 2-D/3-D, '
+                 'chains containing a PWA, WithDims) are explored under histories of apply on a pool of arrays (incl. inputs closer than any tolerance), '
+                 'batched apply, apply on shapes aliasing an array, in-place overwrites / 1-ulp pokes of previously passed arrays and scribbling on returned '
+                 'arrays, to depth 3 (quick) / 4 (thorough, cached letters); every result must equal bitwise a never-used twin applied to a private copy and a '
+                 'numpy reference; every batch size 1..n+2; every subset pattern of out-of-domain points x batch sizes with the raised containment mask '
+                 'compared with an independent point-in-triangle test; BooleanImage.constrain_to_pointcloud for every batch size.'},
  'C10': {'design_ref': 'DESIGN.md 3/C10',
          'note': 'float64 data with a guarded well-separated spectrum (n<=11, d<=10); tolerances 1e-9..1e-11 with >=100x margin over the measured error',
          'technique': 'explicit-state BFS over bookkeeping histories on the implementation, differential against an SVD reference model and against fresh '
@@ -99,6 +108,22 @@ CHECKS = {'C01': {'design_ref': 'DESIGN.md 3/C01',
                  'on/off on 9 image letters (3 classes, 2-D/3-D, uint8/float/bool, 1-5 channels), chained to depth 2 in thorough, is compared bit for bit with '
                  'plain slicing incl. landmarks, mask, dtype and the refusal contract; patch extraction is run on EVERY integer centre from -2 to S+1 for 6 '
                  'patch shapes x 3 offset sets x both paths against a per-pixel reference, plus fractional centres and extract/set round trips.'},
+ 'C16': {'design_ref': 'DESIGN.md 3/C16',
+         'note': 'no ffmpeg: the video exporter is explored for the refusal path only; gz payloads compared after decompression (header carries an mtime)',
+         'technique': 'explicit-state BFS over operation histories on the implementation, each transition checked against a reference model',
+         'text': 'Export->import round trips for every object letter (LJSON for all shape classes and landmark managers with NaN patterns, '
+                 'unicode/ordered/overlapping labels, empty edge sets; PTS; plain and gzipped pickles of shapes, images, transforms, PCA/GMRF models; 8-bit '
+                 'and float images through PNG/BMP/TIFF/PGM/PPM) in a private temp directory, and the overwrite-protection machine: every history (depth 2 '
+                 'quick / 3 thorough) of exports by every exporter x path spelling (str/Path, relative/absolute, multi-dot, other working directory) x '
+                 'overwrite flag against a path->bytes model (existing and not overwrite => OverwriteError and bytes intact).'},
+ 'C17': {'design_ref': 'DESIGN.md 3/C17',
+         'note': '[interp] an all-true mask may keep pre-existing orphan vertices; vertex normals required unit only where one exists',
+         'technique': 'exhaustive small-scope enumeration of meshes x masks explored to depth 2 on the implementation against an index-free reference model',
+         'text': 'Every triangle list of <=3 (quick) / <=4 (thorough) triangles on 5 generic vertices, the closed tetrahedra, the five-triangle family with an '
+                 'edge used three times (sorted and rotated order), grids and Delaunay meshes, as TriMesh / ColouredTriMesh / TexturedTriMesh in 2-D and 3-D: '
+                 'every vertex mask and triangle mask that keeps a whole triangle (re-masked at depth 2 in thorough), compared with an index-free reference '
+                 '(coordinates of kept triangles, attributes by vertex); areas, edge lengths, normals, boundary detection and unique edges against closed-form '
+                 'references under rigid-motion and scale letters.'},
  'C18': {'design_ref': 'DESIGN.md 3/C18',
          'note': 'masked normalisation is read as acting on the pixels under the mask; result/input memory sharing is noted, not failed ([interp])',
          'technique': 'exhaustive cross product of feature letters x image letters explored to depth 2 on the implementation, differential array-vs-image plus '
